@@ -351,3 +351,71 @@ def local_scopes(prog):
             r = prog.resolve_dotted(m, dotted(v) or '')
             out.setdefault(m.name, {}).setdefault(k.value, []).append(r)
   return out
+
+
+# ---------------------------------------------------------------------------
+MUTATORS = ('append', 'extend', 'insert', 'remove', 'pop', 'sort', 'reverse',
+            'clear', 'update', 'add', 'discard', 'setdefault', 'popitem')
+
+
+def param_mutations(fn):
+  """In-place mutations of a parameter object that is still the caller's
+  object (its reaching definition is the function entry):
+  [(param, node, kind)]."""
+  from .wiring import FnCtx
+  ctx = FnCtx.of(fn)
+  params = set(fn.all_params)
+  out = []
+
+  def still_callers(name, node):
+    at = ctx.cfg.node_containing(node)
+    if at is None:
+      return False
+    defs = ctx.rd.defs_reaching(at, name)
+    return ctx.cfg.entry.id in defs
+
+  for n in ast.walk(fn.node):
+    if isinstance(n, ast.AugAssign) and isinstance(n.target, ast.Name) and \
+        n.target.id in params:
+      # x += [..] mutates lists in place; numbers/tensors are rebound
+      if isinstance(n.value, (ast.List, ast.ListComp, ast.Tuple)) or (
+          isinstance(n.value, ast.BinOp) and isinstance(n.value.left,
+                                                         ast.List)):
+        if still_callers(n.target.id, n.value):
+          out.append((n.target.id, n, 'augmented assignment of a list'))
+    elif isinstance(n, ast.Call) and isinstance(n.func, ast.Attribute) and \
+        n.func.attr in MUTATORS and isinstance(n.func.value, ast.Name) and \
+        n.func.value.id in params:
+      if still_callers(n.func.value.id, n):
+        out.append((n.func.value.id, n, '.%s()' % n.func.attr))
+    elif isinstance(n, (ast.Assign, ast.AugAssign)):
+      ts = n.targets if isinstance(n, ast.Assign) else [n.target]
+      for t in ts:
+        if isinstance(t, ast.Subscript) and isinstance(t.value, ast.Name) \
+            and t.value.id in params and still_callers(t.value.id, n.value):
+          out.append((t.value.id, n, 'item assignment'))
+  return out
+
+
+def attr_mutations(fn, attrs):
+  """Assignments / in-place mutations of self.<attr> for attr in attrs."""
+  out = []
+  for n in ast.walk(fn.node):
+    if isinstance(n, (ast.Assign, ast.AugAssign)):
+      ts = n.targets if isinstance(n, ast.Assign) else [n.target]
+      for t in ts:
+        for x in ast.walk(t):
+          d = dotted(x) if isinstance(x, ast.Attribute) else None
+          if d and d.startswith('self.') and d[5:] in attrs and isinstance(
+              x.ctx, ast.Store):
+            out.append((d[5:], n, 'assignment'))
+          if isinstance(x, ast.Subscript) and isinstance(x.ctx, ast.Store):
+            d = dotted(x.value)
+            if d and d.startswith('self.') and d[5:] in attrs:
+              out.append((d[5:], n, 'item assignment'))
+    elif isinstance(n, ast.Call) and isinstance(n.func, ast.Attribute) and \
+        n.func.attr in MUTATORS:
+      d = dotted(n.func.value)
+      if d and d.startswith('self.') and d[5:] in attrs:
+        out.append((d[5:], n, '.%s()' % n.func.attr))
+  return out
